@@ -198,6 +198,8 @@ def table_check(out):
 
 
 def run(ctx, out):
+    import families as _famsm
+    out.evaluations += _famsm.struct_mapping_family(out, PROP)
     import families as _fampb
     out.evaluations += _fampb.positional_bounds_family(out, PROP)
     import families, random as _random
